@@ -32,7 +32,9 @@ RULE = ("hierarchies = a root with 1..3 children, each with 0..3 children of its
         "the class loaded through (root and intermediate classes), hand-written dicts (missing keys, unknown keys, unions of "
         "siblings' fields, bogus/foreign type entries), hierarchies where one class has a field(init=False), and holder classes reaching the hierarchy through a dataclass-typed "
         "field, List[..] and Dict[str, ..] (one and two levels deep), including a derived holder HS(H) whose dataclass-typed "
-        "fields hold STRICT subclasses of their declared types, loaded through H with decode_into_subclasses unset. Each case carries 2 save_dc_types x 3 drop_extra_fields "
+        "fields hold STRICT subclasses of their declared types, loaded through H with decode_into_subclasses unset; "
+        "and TWO-STEP histories in one process (the early part of a hierarchy is defined and an instance is loaded through a base; "
+        "then a late subtree is defined in the same module and an instance of it is loaded through the same base; both loads judged). Each case carries 2 save_dc_types x 3 drop_extra_fields "
         "observations. Non-trivial = the dict has at least one key the loading class does not know or a type entry; distinct by "
         "full case.")
 TRUSTED = ["dataclasses.fields / __subclasses__ / the import system, as observed through introspection of the created classes "
@@ -273,8 +275,11 @@ def gen(tier, seed):
     for _ in range(n_hold):
         cases.append(holder_case(rng.choice(fam) if rng.random() < 0.7 else random_big(rng), rng))
     # a derived class with a dataclass-typed field holding a subclass of the declared type, loaded through its base
-    for _ in range(n_hold):
+    for _ in range(2 * n_hold // 3):
         cases.append(holder_case(rng.choice(fam) if rng.random() < 0.8 else random_big(rng), rng, nested=True))
+    # process history: some classes are defined only after a first load has been made
+    for _ in range(n_hold):
+        cases.append(two_step_case(rng.choice(fam) if rng.random() < 0.8 else random_big(rng), rng))
     # the same kind of cases, each in an interpreter of its own
     for _ in range(n_fresh):
         c = json.loads(json.dumps(rng.choice(cases)))
@@ -308,6 +313,26 @@ def raw_dict(classes, fields, rng):
     elif t < 0.11:
         out.insert(0, ["_type_", "no_such_module_c14.Base"])
     return out
+
+
+def two_step_case(classes, rng):
+    """Part of the hierarchy is defined, a load is made through `via`; then the late classes (a non-root class with
+    everything below it) are defined in the same module and an instance of one of them is loaded through the same class."""
+    fields = all_fields(classes)
+    anc = ancestors_of(classes)
+    names = [c["name"] for c in classes]
+    top = rng.choice(names[1:])
+    late = [n for n in names if n == top or top in anc[n]]
+    early = [n for n in names if n not in late]
+    order = [n for n in rng.choice(topo_orders(classes, rng, 4)) if n in early] + \
+            [n for n in rng.choice(topo_orders(classes, rng, 4)) if n in late]
+    setup = apply_config(classes, order, rng.choice(["on", "off", "plain", "on", "mid-on"]), rng.random() < 0.2)
+    via = rng.choice([a for a in anc[top] if a in early])
+    below_early = [n for n in early if via in anc[n]]
+    d1 = rng.choice(below_early) if below_early else via
+    d2 = rng.choice(late) if rng.random() < 0.85 else rng.choice([n for n in names if n == via or via in anc[n]])
+    return dict(setup=setup, via=via, src={"inst": instance_of(d2, fields[d2], rng)}, fresh=False, late=late,
+                pre=dict(via=via, src={"inst": instance_of(d1, fields[d1], rng)}))
 
 
 def holder_case(classes, rng, nested=False):
@@ -362,7 +387,7 @@ def holder_case(classes, rng, nested=False):
 # implementation side
 
 
-def _source(setup):
+def _source(setup, only=None):
     ser = setup["kind"] == "ser"
     lines = ["from dataclasses import dataclass, field", "from typing import Dict, List"]
     if ser:
@@ -377,12 +402,16 @@ def _source(setup):
         return f"class {name}({', '.join(args)}):" if args else f"class {name}:"
 
     for c in setup["classes"]:
+        if only is not None and c["name"] not in only:
+            continue
         lines += ["@dataclass", head(c["name"], c["bases"], c["kw"])]
         body = [f"    {f}: int = field(default={DEFAULTS[f]}, init=False)" if f in NONINIT else
                 f"    {f}: int" + ("" if setup["req"] else f" = {DEFAULTS[f]}") for f in c["own"]]
         lines += body or ["    pass"]
         lines.append("")
     for hcls in setup["holders"]:
+        if only is not None and hcls["name"] not in only:
+            continue
         lines += ["@dataclass", head(hcls["name"], hcls["bases"], hcls["kw"])]
         # required (dataclass-typed) fields first; a subclass of a holder with defaulted fields must default its own too
         inherited_defaults = bool(hcls["bases"]) and any(k != "dc" for h2 in setup["holders"] if h2["name"] in hcls["bases"]
@@ -445,16 +474,84 @@ def _build_value(ns, v):
     return {k: _build_value(ns, x) for k, x in v["d"]}
 
 
-def _run_one(case):
-    """Create the classes in a fresh module and observe.  Runs inside the implementation interpreter."""
+def _observe(ns, modname, setup, names, via_name, src):
+    """The loads of one point of the history (classes `names` exist), then the class table and enumerations at that point."""
     import dataclasses
-    import logging
-    import types
     import typing
 
     from implutil import outcome_of
     from simple_parsing.helpers.serialization import serializable as S
     from simple_parsing.utils import all_subclasses
+
+    classes = [ns[n] for n in names]
+    if setup["kind"] == "ser":
+        reg = S.SerializableMixin.subclasses
+        classes.sort(key=reg.index)                      # registration order, as the library recorded it
+    inside = {c: c.__name__ for c in classes}
+
+    def fty(t):
+        if t is int:
+            return ["int"]
+        if t in inside:
+            return ["dc", inside[t]]
+        origin, args = typing.get_origin(t), typing.get_args(t)
+        if origin is list and args[0] in inside:
+            return ["list", inside[args[0]]]
+        if origin is dict and args[0] is str and args[1] in inside:
+            return ["dict", inside[args[1]]]
+        raise AssertionError(f"unexpected field type {t!r}")
+
+    def dflt(f):
+        if f.default is not dataclasses.MISSING:
+            return None if f.default is None else ["v", _canon_value(f.default)]
+        if f.default_factory is not dataclasses.MISSING:
+            return ["v", _canon_value(f.default_factory())]
+        return None
+
+    # the loads first (nothing of the harness touches the library before them)
+    via = ns[via_name]
+    probes = []
+    if "inst" in src:
+        obj = _build_value(ns, src["inst"])
+        sers = [(save, S.to_dict(obj, save_dc_types=save)) for save in (False, True)]
+    else:
+        d = {}
+        for k, v in src["raw"]:
+            d[k] = v.replace("@MOD@", modname) if isinstance(v, str) else v
+        sers = [(False, d)]
+    for save, d in sers:
+        outs = []
+        for drop in (None, True, False):
+            kwargs = {} if drop is None else {"drop_extra_fields": drop}
+            if setup["kind"] == "ser":
+                r = outcome_of(lambda: via.from_dict(json.loads(json.dumps(d)), **kwargs))
+            else:
+                r = outcome_of(lambda: S.from_dict(via, json.loads(json.dumps(d)), **kwargs))
+            outs.append([drop, ["ok", _canon_value(r[1])] if r[0] == "ok" else ["raise", r[1] if r[0] == "raise" else r[0]]])
+        probes.append(dict(save=save, ser=_canon_ser(d), outs=outs))
+
+    kws = {c["name"]: c["kw"] for c in setup["classes"]}
+    kws.update({h["name"]: h["kw"] for h in setup["holders"]})
+    hier = []
+    for c in classes:
+        init = set(S.get_init_fields(c))
+        fs = [[f.name, fty(f.type), dflt(f), f.name in init] for f in dataclasses.fields(c)]
+        hier.append([c.__name__, [inside[b] for b in c.__bases__ if b in inside], fs, kws[c.__name__]])
+    expect = all_fields(setup["classes"])
+    for n, _, fs, _ in hier:
+        assert all((f[0] not in NONINIT) == f[3] for f in fs), (n, fs)
+        if n in expect:
+            assert sorted(x[0] for x in fs) == sorted(expect[n]), (n, fs, expect[n])
+    dis = [[c.__name__, bool(getattr(c, "decode_into_subclasses", False))] for c in classes]
+    enum = [[c.__name__, [s.__name__ for s in all_subclasses(c)]] for c in classes]
+    return dict(mod=modname, hier=hier, dis=dis, enum=enum, probes=probes, error=None)
+
+
+def _run_one(case):
+    """Create the classes in a fresh module (in one go, or in two steps with loads in between) and observe.
+    Runs inside the implementation interpreter."""
+    import logging
+    import types
 
     logging.getLogger("simple_parsing").setLevel(logging.CRITICAL)
     setup = case["setup"]
@@ -463,70 +560,20 @@ def _run_one(case):
     mod = types.ModuleType(modname)
     sys.modules[modname] = mod
     try:
-        exec(compile(_source(setup), f"<{modname}>", "exec", dont_inherit=True), mod.__dict__)
         ns = mod.__dict__
         names = [c["name"] for c in setup["classes"]] + [h["name"] for h in setup["holders"]]
-        classes = [ns[n] for n in names]
-        if setup["kind"] == "ser":
-            reg = S.SerializableMixin.subclasses
-            classes.sort(key=reg.index)                      # registration order, as the library recorded it
-        inside = {c: c.__name__ for c in classes}
-
-        def fty(t):
-            if t is int:
-                return ["int"]
-            if t in inside:
-                return ["dc", inside[t]]
-            origin, args = typing.get_origin(t), typing.get_args(t)
-            if origin is list and args[0] in inside:
-                return ["list", inside[args[0]]]
-            if origin is dict and args[0] is str and args[1] in inside:
-                return ["dict", inside[args[1]]]
-            raise AssertionError(f"unexpected field type {t!r}")
-
-        def dflt(f):
-            if f.default is not dataclasses.MISSING:
-                return None if f.default is None else ["v", _canon_value(f.default)]
-            if f.default_factory is not dataclasses.MISSING:
-                return ["v", _canon_value(f.default_factory())]
-            return None
-
-        kws = {c["name"]: c["kw"] for c in setup["classes"]}
-        kws.update({h["name"]: h["kw"] for h in setup["holders"]})
-        hier = []
-        for c in classes:
-            init = set(S.get_init_fields(c))
-            fs = [[f.name, fty(f.type), dflt(f), f.name in init] for f in dataclasses.fields(c)]
-            hier.append([c.__name__, [inside[b] for b in c.__bases__ if b in inside], fs, kws[c.__name__]])
-        expect = all_fields(setup["classes"])
-        for n, _, fs, _ in hier:
-            assert all((f[0] not in NONINIT) == f[3] for f in fs), (n, fs)
-            if n in expect:
-                assert sorted(x[0] for x in fs) == sorted(expect[n]), (n, fs, expect[n])
-        dis = [[c.__name__, bool(getattr(c, "decode_into_subclasses", False))] for c in classes]
-        enum = [[c.__name__, [s.__name__ for s in all_subclasses(c)]] for c in classes]
-        via = ns[case["via"]]
-        probes = []
-        src = case["src"]
-        if "inst" in src:
-            obj = _build_value(ns, src["inst"])
-            sers = [(save, S.to_dict(obj, save_dc_types=save)) for save in (False, True)]
+        late = [n for n in names if n in set(case.get("late") or [])]
+        pre = None
+        if late:
+            early = [n for n in names if n not in late]
+            exec(compile(_source(setup, only=early), f"<{modname}>", "exec", dont_inherit=True), ns)
+            pre = _observe(ns, modname, setup, early, case["pre"]["via"], case["pre"]["src"])
+            exec(compile(_source(setup, only=late), f"<{modname}>", "exec", dont_inherit=True), ns)
         else:
-            d = {}
-            for k, v in src["raw"]:
-                d[k] = v.replace("@MOD@", modname) if isinstance(v, str) else v
-            sers = [(False, d)]
-        for save, d in sers:
-            outs = []
-            for drop in (None, True, False):
-                kwargs = {} if drop is None else {"drop_extra_fields": drop}
-                if setup["kind"] == "ser":
-                    r = outcome_of(lambda: via.from_dict(json.loads(json.dumps(d)), **kwargs))
-                else:
-                    r = outcome_of(lambda: S.from_dict(via, json.loads(json.dumps(d)), **kwargs))
-                outs.append([drop, ["ok", _canon_value(r[1])] if r[0] == "ok" else ["raise", r[1] if r[0] == "raise" else r[0]]])
-            probes.append(dict(save=save, ser=_canon_ser(d), outs=outs))
-        return dict(mod=modname, hier=hier, dis=dis, enum=enum, probes=probes, error=None)
+            exec(compile(_source(setup), f"<{modname}>", "exec", dont_inherit=True), ns)
+        out = _observe(ns, modname, setup, names, case["via"], case["src"])
+        out["pre"] = pre
+        return out
     finally:
         sys.modules.pop(modname, None)
 
@@ -681,10 +728,22 @@ def _nondrop(h, b, v, r, depth=0):
 
 
 def _judge(case, obs):
-    """-> (clause, detail, reason) of the first observation violating the property, or None."""
+    """-> (clause, detail, reason) of the first observation violating the property, or None.  Each point of the history
+    is judged on its own, against the classes that exist at that point."""
+    if obs.get("pre"):
+        j = _judge_stage(case["pre"]["via"], case["pre"]["src"], obs["pre"])
+        if j:
+            return (j[0], j[1] + ":before-late-classes", "first load (late classes not yet defined): " + j[2])
+        j = _judge_stage(case["via"], case["src"], obs)
+        if j:
+            return (j[0], j[1] + ":after-late-classes",
+                    f"second load, after {case['late']} were defined and a first load through {case['pre']['via']} was made: " + j[2])
+        return None
+    return _judge_stage(case["via"], case["src"], obs)
+
+
+def _judge_stage(via, src, obs):
     h = _H(obs["hier"])
-    via = case["via"]
-    src = case["src"]
     for p in obs["probes"]:
         for drop, o in p["outs"]:
             eff = h.effdrop(via, drop)
@@ -789,7 +848,8 @@ def features(case, obs):
     out = {"kind": s["kind"], "n_classes": len(s["classes"]), "req": s["req"], "fresh": bool(case.get("fresh")),
            "src": "holder" if s["holders"] else ("inst" if "inst" in src else "raw"),
            "via": "root" if case["via"] == "Base" else ("holder" if case["via"] in ("H", "HS", "O") else "intermediate"),
-           "enabled(via)": h.enabled(case["via"]), "has-init=False-field": h.noninit}
+           "enabled(via)": h.enabled(case["via"]), "has-init=False-field": h.noninit,
+           "history": "two-step" if case.get("late") else "one-step"}
     defined = [c["name"] for c in s["classes"]]
     for n, order in obs["enum"]:
         if n == "Base" and len(order) > 1:
@@ -854,7 +914,7 @@ def _outcome(o):
     return f"(Ok {_cvalue(o[1])})" if o[0] == "ok" else f"(Err (Raise {cstr(o[1])}))"
 
 
-def to_coq(case, obs):
+def _stage_coq(via, src, obs):
     hier = clist([
         f"mkc {cstr(n)} {cstrlist(bs)} "
         + clist([f"mkf {cstr(f)} {_cfty(t)} {copt(_cvalue(d[1])) if d is not None else 'None'} {cbool(i)}" for f, t, d, i in fs])
@@ -862,7 +922,6 @@ def to_coq(case, obs):
         for n, bs, fs, kw in obs["hier"]])
     dis = clist([cpair(cstr(n), cbool(b)) for n, b in obs["dis"]])
     enum = clist([cpair(cstr(n), cstrlist(o)) for n, o in obs["enum"] if o])
-    src = case["src"]
     if "inst" in src:
         s = f"(SrcInst {_cvalue(src['inst'])})"
     else:
@@ -871,7 +930,15 @@ def to_coq(case, obs):
         f"mkprobe {cbool(p['save'])} {_cser(p['ser'])} "
         + clist([cpair(copt(cbool(d)) if d is not None else "None", _outcome(o)) for d, o in p["outs"]])
         for p in obs["probes"]])
-    return f"mkcase {cstr(obs['mod'])} {hier} {dis} {enum} {cstr(case['via'])} {s} {probes}"
+    return f"mkstage {cstr(obs['mod'])} {hier} {dis} {enum} {cstr(via)} {s} {probes}"
+
+
+def to_coq(case, obs):
+    stages = []
+    if obs.get("pre"):
+        stages.append(_stage_coq(case["pre"]["via"], case["pre"]["src"], obs["pre"]))
+    stages.append(_stage_coq(case["via"], case["src"], obs))
+    return clist(stages)
 
 
 # --------------------------------------------------------------------------------------------------
@@ -890,6 +957,13 @@ def _used(v, acc):
             _used(x, acc)
 
 
+def _used_names(src):
+    acc = set()
+    if "inst" in src:
+        _used(src["inst"], acc)
+    return acc
+
+
 def shrink(case):
     s = case["setup"]
     src = case["src"]
@@ -905,8 +979,12 @@ def shrink(case):
         n = c["name"]
         if n in used or any(n in d["bases"] for d in s["classes"]):
             continue
+        if case.get("pre") and n in _used_names(case["pre"]["src"]):
+            continue
+        if case.get("late") == [n]:
+            continue
         s2 = dict(s, classes=[d for d in s["classes"] if d["name"] != n])
-        yield dict(case, setup=s2)
+        yield dict(case, setup=s2, **({"late": [x for x in case["late"] if x != n]} if case.get("late") else {}))
     # drop one field of a holder class (from the class and from every instance of it)
     if "inst" in src and s["holders"]:
         def strip(v, cls_names, fname):
